@@ -150,6 +150,12 @@ Theorem C06_skin_same_cycles : forall g g' c, NoDup (keys g) -> skin_graph g = O
 Proof. exact skin_same_cycles. Qed.
 Print Assumptions C06_skin_same_cycles.
 
+(* on a well-formed adjacency (what MoleculeContainer guarantees) the pruning raises nothing and what is left is again a
+   well-formed graph (symmetric, loop free, closed) *)
+Theorem C06_skin_graph_wf : forall g, gwf g -> exists g', skin_graph g = Ok g' /\ gwf g'.
+Proof. exact skin_graph_wf. Qed.
+Print Assumptions C06_skin_graph_wf.
+
 (* what is left has no terminal atom; the loop never runs out of fuel (the model's only artificial error) *)
 Theorem C06_skin_min_degree : forall g g', skin_graph g = Ok g' -> forall n ms, In (n, ms) g' -> (2 <= length ms)%nat.
 Proof. exact skin_min_degree. Qed.
